@@ -14,6 +14,14 @@ TRUSTED_BASE = [
 ]
 
 PLAN = {
+    "C01": {
+        "level": "exploration",
+        "bounded": ["bounded.c01"],
+    },
+    "C16": {
+        "level": "exploration",
+        "bounded": ["bounded.c16"],
+    },
     "C15": {
         "level": "proof",
         "contracts": ["contracts.printer"],
@@ -82,6 +90,21 @@ PLAN = {
 }
 
 MANIFEST_TEXT = {
+    "C01": {
+        "text": "Bounded stand-in: every tree returned by Grammar.fuzz (node budgets 1/5/50) and by Fandango.fuzz (evolutionary "
+                "search with repair, crossover, mutation; generators) over the shared spec family and search-heavy specs is "
+                "checked by an independent derivation checker written against the grammar IR (children spell out one expansion "
+                "of the rule, repetition counts within bounds).",
+        "note": "no contract-level proof of the fuzz() family / replace_multiple yet; bounded over specs, budgets, seeds.",
+        "technique": "bounded run-time contract check of the real pipeline against an independent derivation checker",
+    },
+    "C16": {
+        "text": "Bounded stand-in: in every tree emitted by the search for 7 generator specs (constant, random, one and two "
+                "arguments, nested, next to constraints and equality repairs) each generator-defined node carries a value the "
+                "generator returns for the argument values recorded in the node's sources, and its children are read-only.",
+        "note": "the oracle recomputes the known generator functions of the specs; bounded over specs and seeds; no proof yet.",
+        "technique": "bounded run-time contract check with a recomputing oracle",
+    },
     "C04": {
         "text": "Bounded stand-in, not a proof: the postcondition of Grammar.parse_forest / Fandango.parse (every yielded tree is a "
                 "derivation per an independent checker over the grammar IR, no helper symbols, serialisation == input, API trees "
